@@ -283,6 +283,7 @@ type tx struct {
 	closed   bool
 	s        Snapshot
 	onCommit []func()
+	dirty    [][]byte // keys put in this transaction (values copied at commit)
 }
 
 func (d *DB) begin(w bool) (*tx, error) {
@@ -380,6 +381,11 @@ func (t *tx) Commit() error {
 	if t.db.FailCommit != nil {
 		if err := t.db.FailCommit(t.db.commits); err != nil {
 			return err
+		}
+	}
+	for _, k := range t.dirty {
+		if n := get(t.s.root, k); n != nil && n.ent.child == 0 {
+			t.s.root = insert(t.s.root, k, entry{val: append([]byte{}, n.ent.val...)})
 		}
 	}
 	t.db.Restore(t.s)
@@ -544,8 +550,12 @@ func (b *bucket) Put(key, value []byte) error {
 	if n := get(b.t.s.root, k); n != nil && n.ent.child != 0 {
 		return walletdb.ErrIncompatibleValue
 	}
-	v := append([]byte{}, value...)
-	b.t.s.root = insert(b.t.s.root, k, entry{val: v})
+	// Like bbolt, the value slice is kept by reference until the
+	// transaction commits ("the supplied value must remain valid for the
+	// life of the transaction"): a caller that re-uses its buffer within
+	// one transaction corrupts its own earlier writes, here as there.
+	b.t.s.root = insert(b.t.s.root, k, entry{val: value})
+	b.t.dirty = append(b.t.dirty, k)
 	return nil
 }
 
